@@ -40,7 +40,8 @@ def memberCheck (pk : PublicKey) (p : ProofD) (attrs : List Int) (disclosed : Li
   let shapeBad := idxs.any fun i =>
     if disclosed.contains i then !(p.aDisclosed.has i) || p.aResponses.has i
     else p.aDisclosed.has i || !(p.aResponses.has i)
-  if shapeBad || p.aDisclosed.length ≠ disclosed.length || p.aResponses.length ≠ attrs.length - disclosed.length then "shape" else
+  let nd := disclosed.eraseDups.length
+  if shapeBad || p.aDisclosed.length ≠ nd || p.aResponses.length ≠ attrs.length - nd then "shape" else
   let valueBad := idxs.any fun i => disclosed.contains i && p.aDisclosed.get i ≠ attrs[i.toNat]?
   if valueBad then "value" else
   let randBad := idxs.any fun i =>
